@@ -18,11 +18,11 @@ BUILT = {
     note="Trusted: xt's own translation of each document alone (value correctness is not claimed); the harness's own JSON/MessagePack/YAML framing scanners."),
   "C05": dict(level="exploration", ref="§7 C05",
     technique="deterministic simulation: packetised producer, oracle over the recorded read/write event history (lag) and a counting allocator (memory)",
-    text="The property is about interaction over time; the simulator records every read and write with a global sequence number and checks the lag bound at every read, plus peak-heap growth between N/4 and N documents. Sampling of streams and packetisations; evidence, not proof.",
+    text="The property is about interaction over time; the simulator records every read and write with a global sequence number and checks the lag bound at every read, plus peak-heap growth between N/4 and N documents. Streams are UTF-8, UTF-8 behind a byte order mark, or UTF-16/32 (YAML), with LF or any other YAML line break. Sampling of streams and packetisations; evidence, not proof.",
     note="Trusted: counting global allocator attribution (harness bookkeeping excluded by guard); per-document output lengths from xt itself."),
   "C08": dict(level="exploration", ref="§7 C08",
     technique="deterministic simulation of caller histories against a TOML output with a two-variable reference model (presented/written) and planted refusable values",
-    text="Seeded histories of calls and documents (with planted nulls, oversized integers, non-table roots, second documents) are checked call by call against a small reference model of the TOML output object and the output is re-read with the toml crate and compared with the generator's model value.",
+    text="Seeded histories of calls and documents (with planted nulls, oversized integers, non-table roots, second documents) are checked call by call against a small reference model of the TOML output object and the output is re-read with the toml crate and compared with the generator's model value (also for documents holding binary data, which xt may refuse but can never write faithfully).",
     note="Trusted: the toml crate as the reader of the output; the generator's model values; floats restricted to short exact decimals so that C01's precision question is not re-decided."),
   "C11": dict(level="fault_enumeration", ref="§7 C11",
     technique="deterministic simulation with fault injection: consumer fault at every output byte, syntax defect at every input byte, unrepresentable value at random tree positions; expected reasons probed from the serializer/parser crates; 1 run in 10 drives the shipped binary under the syscall interposer and compares its standard-error line with the library's error text",
@@ -38,11 +38,11 @@ BUILT = {
     note="Trusted: Rust's char::decode_utf16 / char::from_u32 as the reference decoder; the verif hook adds no logic."),
   "C09": dict(level="exploration", ref="§7 C09",
     technique="deterministic simulation: detection vs explicit runs under read schedules and producer faults; bounded-exhaustive + sampled operation programs on the rewindable input handle against a reference model",
-    text="Detection's answer (verif hook) is compared with the explicit run it must equal (verdict, bytes and error text), slice/reader agreement and totality are checked under seeded schedules; every program of <= 3 (thorough: 4) handle operations over all data sizes <= 4 and all chunkings is enumerated and checked step by step against the model 'a borrow always sees the stream from offset 0', longer programs (also with transient producer errors) are sampled.",
+    text="Detection's answer (verif hook) is compared with the explicit run it must equal (verdict, bytes and error text), slice/reader agreement and totality are checked under seeded schedules; every program of <= 3 (thorough: 4) handle operations (read, prefix, re-borrow, read_exact, read_to_end) over all data sizes <= 4 and all chunkings is enumerated and checked step by step against the model 'a borrow always sees the stream from offset 0', longer programs (also with transient producer errors) are sampled.",
     note="Trusted: the verif hook wrappers. Open finding F7 (position numbers in error texts after the handle flipped to slice mode) is attributed by predicate + neutralising transform."),
   "C10": dict(level="exploration", ref="§7 C10",
     technique="deterministic simulation of the pipeline `xt -t F | xt`: stage 1's recorded write boundaries are re-chunked by a seeded pipe model into stage 2's read schedule",
-    text="Generated collection-rooted documents are translated by stage 1; stage 2 runs with detection (reader with the pipe's schedule, and slice) and must detect F and behave like -f F. The schedule dimension is thin here (detection is mostly a function of the bytes); sampling of documents dominates.",
+    text="Generated collection-rooted documents are translated by stage 1; stage 2 runs with detection (reader with the pipe's schedule, and slice) and must detect F and behave like -f F. One stream in twelve starts with a document of exactly 8192*k output bytes fed back in buffer-sized pieces. The schedule dimension is otherwise thin here (detection is mostly a function of the bytes); sampling of documents dominates.",
     note="Trusted: serde_json / serde_yaml as independent judges for the TOML carve-out."),
   "C18": dict(level="exploration", ref="§7 C18",
     technique="deterministic simulation: depth windows swept completely per run across slice and reader schedules in crash-isolated workers on an 8 MiB stack; process layer runs the real binaries",
@@ -62,7 +62,7 @@ BUILT = {
     note="Trusted: the library's output for the same input sequence as expectation; stdout is a regular file written through the interposer."),
   "C16": dict(level="fault_enumeration", ref="§7 C16",
     technique="deterministic simulation with fault injection at process level: fd 1 starts failing with EPIPE/ENOSPC/EIO after k accepted bytes, k enumerated densely around 0 and the buffer/pipe size boundaries for each drawn workload",
-    text="For each sampled workload the point at which the consumer goes away is enumerated (0..64, +-2 around 1 KiB/4 KiB/8 KiB/16 KiB/64 KiB, geometric beyond); EPIPE must end in death by SIGPIPE with empty stderr and exactly the first k expected bytes on stdout, other errnos in exit 1 with an 'xt error' message.",
+    text="For each sampled workload the point at which the consumer goes away is enumerated (0..64, +-2 around 1 KiB/4 KiB/8 KiB/16 KiB/64 KiB, geometric beyond, and +-1 around the end of every input's output, where xt has just flushed); the interposer answers poll() on fd 1 from the same plan; EPIPE must end in death by SIGPIPE with empty stderr and exactly the first k expected bytes on stdout, other errnos in exit 1 with an 'xt error' message.",
     note="Trusted: the interposer's errno equals what the kernel returns on a closed pipe/full device; fidelity runs with a real closing pipe and /dev/full bound that trust."),
   "C17": dict(level="exploration", ref="§7 C17",
     technique="deterministic simulation with fault injection (short reads, producer error at every offset, over-reporting producer, early drop after every event) executed three times: ordinary build with a per-run leak oracle, AddressSanitizer build, Miri",
